@@ -1,32 +1,11 @@
-"""Per-property check plans: which harness, which flavours, how many generated cases per tier.
-Budgets are case counts; time_cap is only a safety net (hitting it means fewer cases, never a verdict)."""
+"""Loads the per-property check plans from bin/plans/CXX.py.
+Each plan module defines PLAN (level, rule, assumptions, floor, tiers) and TEXT (technique, level_text, level_note[, engine])."""
+import os, importlib.util, glob
+from plans.common import *   # noqa
 
-SC_TSO = ["x86-TSO store-buffer sub-model for atomics only (non-atomic stores are not delayed); nothing weaker than TSO",
-          "schedules are sampled at atomic-operation granularity, not enumerated; switches between two non-atomic accesses are not explored",
-          "liveness = no DEADLOCK / SPIN-FIXPOINT under a scheduler that eventually runs every runnable thread; step-budget overruns are inconclusive"]
-
-
-def det(name, harness, flavour, procs, programs, scheds=4, tso=False, time_cap=60, **kw):
-    d = dict(kind="detsched", name=name, harness=harness, flavour=flavour, procs=procs, programs=programs, scheds=scheds, tso=tso, time_cap=time_cap)
-    d.update(kw)
-    return d
-
-
-PROPS = {
-    "C08": dict(
-        level="exploration",
-        rule="case = generated lock program (type, 2-4 threads x 1-6 ops incl. try/upgrade/downgrade) x generated schedule "
-             "(walk/pct/pos/directed stall, SC or TSO); non-trivial = at least one acquire was invoked while the lock was held AND at least "
-             "one blocking acquire had to wait (reached a pause/yield inside acquire); distinct = hash of program text + schedule descriptor",
-        assumptions=SC_TSO + ["RTM transactions abort at every baton hand-over, so speculative mutexes mostly run their fallback path here"],
-        floor=dict(quick=50, thorough=200),
-        tiers=dict(
-            quick=[det("rel", "harness/c08_mutex.cpp", "cs-rel", 16, 120, 5, tso=True, time_cap=30),
-                   det("dbg", "harness/c08_mutex.cpp", "cs-dbg", 16, 60, 5, tso=True, time_cap=20)],
-            thorough=[det("rel", "harness/c08_mutex.cpp", "cs-rel", 16, 3000, 6, tso=True, time_cap=240),
-                      det("dbg", "harness/c08_mutex.cpp", "cs-dbg", 16, 1200, 6, tso=True, time_cap=150),
-                      det("enum-wake", "harness/c08_mutex.cpp", "cs-rel", 16, 150, 2, tso=True, time_cap=90, enum="wake", enum_cap=200),
-                      det("enum-sbload", "harness/c08_mutex.cpp", "cs-rel", 16, 150, 2, tso=True, time_cap=90, enum="sbload", enum_cap=200)],
-        ),
-    ),
-}
+PROPS, TEXTS = {}, {}
+for f in sorted(glob.glob(os.path.join(os.path.dirname(os.path.abspath(__file__)), "plans", "C[0-9]*.py"))):
+    pid = os.path.basename(f)[:-3]
+    spec = importlib.util.spec_from_file_location("plan_" + pid, f)
+    m = importlib.util.module_from_spec(spec); spec.loader.exec_module(m)
+    PROPS[pid] = m.PLAN; TEXTS[pid] = m.TEXT
